@@ -163,6 +163,19 @@ class StftMonitor:
             self.rec.count("stft_float16_inputs")
         if comp.bank.is_real and any(abs(h[0]) > 1e-3 or (D % 2 == 0 and abs(h[D // 2]) > 1e-3) for h in H):
             self.rec.count("real_filter_with_response_on_the_0Hz_or_nyquist_bin")
+        if f16 and got.shape == want.shape:
+            # the result is stored in the signal's type: two quanta of a float16 value are rounding (in the log domain a
+            # quantum of a value near -138 is an eighth, which no relative tolerance on exp() covers)
+            with np.errstate(all="ignore"):
+                q = 2 * np.spacing(np.abs(want).astype(np.float16)).astype(np.float64)
+            got = np.where(np.abs(got.astype(np.float64) - want) <= q, want, got.astype(np.float64))
+            # ... and a value beyond the largest float16 is stored as an infinity of that sign
+            with np.errstate(all="ignore"):
+                w16 = want.astype(np.float16).astype(np.float64)
+            over = ~np.isfinite(w16) & (got == w16)
+            if np.any(over):
+                self.rec.count("float16_results_beyond_the_type_range")
+                got, want = np.where(over, 0.0, got), np.where(over, 0.0, want)
         ok, i, detail = R.compare_features(got, want, g["use_log"], config.LOG_FLOOR_VALUE, rtol, atol, R.stft_ref.last_xscale)
         if not ok:
             col = None if i is None else i[1]
@@ -232,7 +245,8 @@ def _run_case(case, rec, mon=None):
     pick = list(rng.choice(Ns, size=min(k, len(Ns)), replace=False)) if not case.get("lengths") else Ns
     for j, N in enumerate(pick):
         kind = str(rng.choice(gen.SIGNAL_KINDS))
-        dt = np.float32 if rng.random() < 0.12 else np.float64
+        r_dt = rng.random()
+        dt = np.float32 if r_dt < 0.12 else np.float16 if r_dt < 0.18 else np.float64  # the result takes the signal's floating type
         x = gen.signal(rng, int(N), kind, dt, views=True)
         x.setflags(write=False)
         try:
@@ -301,7 +315,7 @@ def run_shard(spec, rec):
         monitor.detach_all()
         return
     for i in range(spec["a"], spec["b"]):
-        run_case({"idx": i, "seed": spec["seed"], "cfg": make_cfg(spec["seed"], i), "log_floor": [None, None, None, None, 1e-3, None, 1e-9][i % 7]}, rec, mon)
+        run_case({"idx": i, "seed": spec["seed"], "cfg": make_cfg(spec["seed"], i), "log_floor": [None, None, None, None, 1e-3, None, 1e-9, None, None, None, None, 1e-3, None, 1e-60][i % 14]}, rec, mon)
     rec.count("sanitizer_np_empty_intercepted", sanit.COUNTS["empty"] + sanit.COUNTS["empty_like"])
     sanit.uninstall([_sut])
     monitor.report(rec)
